@@ -122,6 +122,12 @@ func (s *store) Consume(ctx context.Context, consumerName string, f func(uint64,
 		if err != nil {
 			return err
 		}
+		// a run killed between creating and sizing the file left it short: size it now (no-op on a complete file)
+		err = fd.Truncate(8)
+		if err != nil {
+			fd.Close()
+			return err
+		}
 	}
 	stateOffset, err := gommap.Map(fd.Fd(), gommap.PROT_READ|gommap.PROT_WRITE, gommap.MAP_SHARED)
 	if err != nil {
